@@ -64,6 +64,43 @@ def jobs_for(pid, tier, seed):
         J.append(mfam('2 tasks, per-call timeouts, 3 hooks async', ['C04'], 4 if q else 6, tasks=2, hooks=H3A, env={'create': OEP, 'recycle': OEP, 'hook': OEP},
                       timeout_variants=[('pos', 'pos', 'pos')], take=False, probe=False))
         J.append(mfam('2 tasks, hooks panic', ['C04'], 5 if q else 7, tasks=2, hooks=H3, env={'create': OE, 'recycle': OE, 'hook': ('ok', 'err', 'panic')}, take=False, probe=False))
+    elif pid == 'C06':
+        E = {'create': OE, 'recycle': OE}
+        J.append(mfam('task level: 2 tasks + close/resize/status, waiters, returns after close', ['C06'], 6 if q else 8, tasks=2, env=E, ctl=('close', 'resize', 'status'), resize_targets=(1, 2), max_ctl=2, probe=False))
+        J.append(mfam('task level: 3 tasks + close', ['C06'], 5 if q else 7, tasks=3, env={'create': ('ok',), 'recycle': ('ok',)}, ctl=('close',), max_ctl=1, probe=False, take=False))
+        J.append(mfam('thread level: return racing close (1 object out)', ['C06'], 12 if q else 16, tasks=1, env={'create': ('ok',), 'recycle': ('ok',)}, ctl=('close',), max_ctl=1,
+                      thread_mode=True, prefix=(('get', 'T1', 0),), cancel=False, take=False, probe=False, lifo=False))
+        J.append(mfam('thread level: get racing close', ['C06'], 12 if q else 16, tasks=2, env={'create': ('ok',), 'recycle': ('ok',)}, ctl=('close',), max_ctl=1,
+                      thread_mode=True, cancel=False, take=False, probe=False, lifo=False, max_gets=1))
+        J.append(mfam('thread level: take / return racing close (2 objects)', ['C06'], 10 if q else 14, tasks=2, env={'create': ('ok',), 'recycle': ('ok',)}, ctl=('close',), max_ctl=1,
+                      thread_mode=True, prefix=(('get', 'T1', 0), ('get', 'T2', 0)), cancel=False, probe=False, lifo=False, max_gets=1))
+    elif pid == 'C07':
+        E = {'create': OE, 'recycle': OE}
+        J.append(mfam('2 tasks + 2 resizes (targets 0..3), take/return', ['C07'], 6 if q else 8, tasks=2, env={'create': ('ok',), 'recycle': ('ok',)}, ctl=('resize',), max_ctl=2, cancel=False, lifo=False))
+        J.append(mfam('2 tasks + 3 resizes (targets 1..2), failing gets', ['C07'], 5 if q else 7, tasks=2, env=E, ctl=('resize',), resize_targets=(1, 2), max_ctl=3, lifo=False))
+        J.append(mfam('3 tasks + 1 resize, waiters', ['C07'], 5 if q else 7, tasks=3, env={'create': ('ok',), 'recycle': ('ok',)}, ctl=('resize',), max_ctl=1, cancel=False, take=False, lifo=False))
+        J.append(mfam('2 tasks + resize + retain', ['C07'], 5 if q else 7, tasks=2, env={'create': ('ok',), 'recycle': ('ok',)}, ctl=('resize', 'retain'), resize_targets=(0, 1, 3), max_ctl=2, cancel=False, lifo=True))
+        J.append(mfam('thread level: return / take racing resize', ['C07'], 10 if q else 14, tasks=2, env={'create': ('ok',), 'recycle': ('ok',)}, ctl=('resize',), resize_targets=(1,), max_ctl=1,
+                      thread_mode=True, prefix=(('get', 'T1', 0), ('get', 'T2', 0)), cancel=False, lifo=False, max_gets=1, probe=True))
+    elif pid == 'C09':
+        E = {'create': OE, 'recycle': OE}
+        J.append(mfam('2 tasks + retain (any subset), take', ['C09'], 6 if q else 8, tasks=2, env={'create': ('ok',), 'recycle': OE}, ctl=('retain',), max_ctl=2, cancel=False))
+        J.append(mfam('3 tasks + retain, capacity probe', ['C09', 'C02'], 5 if q else 7, tasks=3, env={'create': ('ok',), 'recycle': ('ok',)}, ctl=('retain',), max_ctl=1, cancel=False, lifo=False))
+        J.append(mfam('2 tasks + retain/resize/close: detach exactly once', ['C09'], 5 if q else 7, tasks=2, env=E, ctl=('retain', 'resize', 'close'), resize_targets=(0, 1), max_ctl=2, probe=False))
+        J.append(mfam('2 tasks, hooks reject, cancel: detach exactly once', ['C09'], 5 if q else 7, tasks=2, hooks=H3, env={'create': OEP, 'recycle': OEP, 'hook': OEP}, probe=False))
+        J.append(mfam('2 tasks + repeated retain (stateful predicates)', ['C09', 'C11'], 5 if q else 7, tasks=2, env={'create': ('ok',), 'recycle': ('ok',), 'pred': ('keep', 'remove')}, ctl=('retain',), max_ctl=3, cancel=False, take=False, probe=False, lifo=False))
+        J.append(mfam('thread level: take racing get and return (full pool)', ['C09', 'C02', 'C01'], 12 if q else 16, tasks=3, env={'create': ('ok',), 'recycle': ('ok',)},
+                      thread_mode=True, prefix=(('get', 'T1', 0), ('get', 'T2', 0)), cancel=False, lifo=False, max_gets=1, max_size_bound=2))
+    elif pid == 'C10':
+        E = {'create': OEP, 'recycle': OEP, 'hook': OEP}
+        TV = [None, ('zero', None, None), ('pos', None, None), (None, 'pos', None), (None, None, 'pos'), (None, 'zero', 'zero')]
+        J.append(mfam('2 tasks, per-call timeouts x deadline orderings', ['C10', 'C04', 'C03'], 4 if q else 6, tasks=2, env={'create': OEP, 'recycle': OEP}, timeout_variants=TV, take=False, cancel=False, probe=False, lifo=False))
+        J.append(mfam('1 task, per-call timeouts, hooks async', ['C10', 'C04', 'C03'], 5 if q else 8, tasks=1, hooks=H3A, env=E, timeout_variants=TV, take=False, probe=False, lifo=False))
+        J.append(mfam('2 tasks, pool-level timeouts (pos,pos,pos)', ['C10', 'C04', 'C03'], 5 if q else 7, tasks=2, env={'create': OEP, 'recycle': OEP}, pool_timeouts=('pos', 'pos', 'pos'), take=False, probe=False, lifo=False))
+        J.append(mfam('2 tasks, pool-level zero wait', ['C10'], 5 if q else 7, tasks=2, env={'create': OEP, 'recycle': OEP}, pool_timeouts=('zero', None, None), take=False, probe=False, lifo=False))
+        J.append(mfam('no runtime: per-call timeouts', ['C10'], 5 if q else 7, tasks=2, env={'create': OE, 'recycle': OE}, runtime=False, timeout_variants=TV, take=False, cancel=False, probe=False, lifo=False))
+        for pt in (('pos', None, None), (None, 'zero', None), (None, None, 'pos'), (None, None, None), ('zero', None, None)):
+            J.append(mfam(f'no runtime: build() with configured timeouts {pt}', ['C10'], 2, tasks=1, env={'create': OE, 'recycle': OE}, runtime=False, pool_timeouts=pt, take=False, cancel=False, probe=False, lifo=False))
     elif pid == 'C08':
         J.append(mfam('1 task... 3 tasks returning in any order, fifo+lifo, rejects', ['C08'], 6 if q else 8, tasks=3, env={'create': ('ok',), 'recycle': OE}, cancel=False, probe=False))
         J.append(mfam('2 tasks + retain, fifo+lifo', ['C08'], 6 if q else 8, tasks=2, env={'create': ('ok',), 'recycle': OE}, ctl=('retain',), cancel=False, probe=False))
